@@ -78,7 +78,14 @@ T = {
            "a name (identifier, hash, at-keyword, function, unit) containing DEL after its first character, reachable only through an escape"),
  "C20-2": ("C20", "css/parser/serialize.go badPairs: '#', '-' and number dropped from the first left-hand list: 12 pairs lose their separator",
            "a '#' or '-' delimiter or a number directly followed by a number, percentage, dimension or unicode-range (adjacent only when a comment separated them)"),
- "C02-1": ("C02", "", ""), "C02-2": ("C02", "", ""), "C13-1": ("C13", "", ""), "C13-2": ("C13", "", ""),
+ "C02-1": ("C02", "html/layout/blocks.go blockBoxLayout: the second result of columnsLayout (laid out again with a larger bottomSpace) is dropped, so the split-off remainder of a multi-column container is never laid out",
+           "a multi-column container with non-zero bottom margin/padding/border whose remaining content fits the page only when that bottom spacing is ignored"),
+ "C02-2": ("C02", "html/layout/layout.go layoutDocument: context.footnotes aliases the saved footnote list on repagination; removeFromBoxes filters it in place, so a later round loses a footnote's text",
+           "at least two footnotes, at least three pagination rounds (content: counter(pages) in flow), a page re-made in round 2+ carrying the call of a footnote that is not the last one placed"),
+ "C13-1": ("C13", "html/layout/preferred.go tableAndColumnsPreferredWidths: the horizontal spacing budget is computed from the vertical component of border-spacing",
+           "auto layout, separate borders and a border-spacing with two different components (4px 20px)"),
+ "C13-2": ("C13", "html/layout/preferred.go: a colspan cell's min-content is compared with its columns' MAX-content before being distributed",
+           "a colspan cell whose longest word is wider than its columns' min-content but not than their max-content, in a squeezed auto-layout table"),
 }
 
 def main():
